@@ -79,6 +79,20 @@ def body(case, env):
     if any(n.startswith('e2fsck -fy') and n != 'e2fsck -fyD' for n, v in steps):
         try: corrupt.apply_summary(img, [(0, case['seed'] % 5, 3, 5, False), (2, case['seed'] % 3, 0, 1, False)])
         except Exception: pass
+    # one case in four runs the recording tools with the bounce-buffer I/O path of unix_io (UNIX_IO_FORCE_BOUNCE, what direct I/O uses); when the chain starts with mke2fs the last
+    # 40 KiB of the device hold junk instead of the zeroes of never-used blocks (mke2fs overwrites everything anyway; its 32 KiB undo blocks then reach across the device end)
+    bounce = (case['seed'] // 7) % 4 == 3
+    if bounce: classes.append('io:force-bounce')
+    if steps and steps[0][0].startswith('mke2fs'):
+        if case['seed'] % 3:
+            # a device full of junk whose length is a multiple of the block size but not of mke2fs's 32 KiB undo block
+            kib = [520, 332, 1032, 4104, 8200, 8216][(case['seed'] // 3) % 6]
+            with open(img, 'wb') as f: f.write(bytes((i * 37 + 11) & 0xff | 1 for i in range(4096)) * (kib // 4))
+            classes.append('junk-device:%dK' % kib)
+        else:
+            with open(img, 'r+b') as f:
+                sz = os.path.getsize(img); f.seek(max(0, sz - 40960)); f.write(bytes((i * 37 + 11) & 0xff | 1 for i in range(min(sz, 40960))))
+            classes.append('junk-tail')
     len0 = os.path.getsize(img)
     snaps = [sha_prefix(img, len0)]; undos = []; done = []; shared = mode == 'shared-file'; mover = False; failed_run_on_shared_file = False
     orig = os.path.join(d, 'orig.img'); shutil.copyfile(img, orig); bsizes = {cfg['bs']}
@@ -97,7 +111,7 @@ def body(case, env):
         undo = os.path.join(d, 'shared.e2undo' if shared else 'u%d.e2undo' % k)
         argv, stdin = step_cmd(t, name, v, img, undo, env, cfg)
         if argv is None: continue
-        renv = {}
+        renv = {'UNIX_IO_FORCE_BOUNCE': 'yes'} if bounce else {}
         if mode == 'unfinished' or (mode == 'dry-run' and case['seed'] % 2): renv['UNDO_IO_SIMULATE_UNFINISHED'] = '1'      # e2undo -n must not write for an unfinished recording either
         if mode == 'kill':
             argv[0] = argv[0].replace(env['asan'].b, tp.b)      # the interposer needs the gcc build
